@@ -775,4 +775,211 @@ Section Sim.
       eapply dests_subset; eauto. }
     rewrite HE. exact H2.
   Qed.
+
+  (* ---- what parse returns: one frame per level, each the fold of that level's assignments ------- *)
+  Definition mkf (top : bool) (lv : level) (asg : list (str * raw)) (sub : option str) : frame :=
+    {| fr_ns := cfg_entry (level_has_config as_pos top lv) ++ ns_args (level_args as_pos lv) asg; fr_sub := sub |}.
+
+  Inductive chain : bool -> level -> str -> str -> list frame -> list call -> retv -> Prop :=
+  | ch_fn top n s cn mn asg b :
+      py_call s (ns_args (args_of_sig as_pos s) asg) = Ok b ->
+      chain top (LComp (CFn n s)) cn mn [mkf top (LComp (CFn n s)) asg None] [([n], b)] (RetCall 0)
+  | ch_cls0 top n i cn mn asg b :
+      py_call i (ns_args (args_of_sig as_pos i) asg) = Ok b ->
+      chain top (LComp (CCls n i [])) cn mn [mkf top (LComp (CCls n i [])) asg None] [([n; s__init__], b)] RetInstance
+  | ch_meth top s cn mn asg b :
+      py_call s (ns_args (args_of_sig as_pos s) asg) = Ok b ->
+      chain top (LMeth s) cn mn [mkf top (LMeth s) asg None] [([cn; mn], b)] (RetCall 0)
+  | ch_cls top n i ms cn mn asg b m s fs log ret :
+      py_call i (ns_args (args_of_sig as_pos i) asg) = Ok b ->
+      assoc m ms = Some s ->
+      chain false (LMeth s) n m fs log ret ->
+      chain top (LComp (CCls n i ms)) cn mn (mkf top (LComp (CCls n i ms)) asg (Some m) :: fs)
+            (([n; s__init__], b) :: log) (shift ret)
+  | ch_grp top kids cn mn cn' m c fs log ret :
+      m <> s__help -> assoc m kids = Some c ->
+      chain false (LComp c) cn' m fs log ret ->
+      chain top (LComp (CGrp kids)) cn mn ({| fr_ns := [(s_config, VNone)]; fr_sub := Some m |} :: fs) log ret.
+
+  Lemma find_arg_notin_dests k args : ~ In k (map a_dest args) -> find_arg k args = None.
+  Proof.
+    induction args as [|a args IH]; simpl; auto. intro H.
+    rewrite str_eqb_false by (intro X; apply H; auto). apply IH. tauto.
+  Qed.
+
+  Lemma find_arg_filter f k args :
+    NoDup (map a_dest args) ->
+    find_arg k (filter f args) =
+    match find_arg k args with Some a => if f a then Some a else None | None => None end.
+  Proof.
+    induction args as [|a args IH]; simpl; auto. intro ND. inversion ND as [|? ? Hn ND']; subst.
+    destruct (str_eqb k (a_dest a)) eqn:E.
+    - destruct (f a) eqn:Ef; simpl.
+      + rewrite E. reflexivity.
+      + apply find_arg_notin_dests. apply str_eqb_spec in E. subst k. intro HI. apply Hn.
+        apply in_map_iff in HI. destruct HI as [x [Hx1 Hx2]]. apply filter_In in Hx2. destruct Hx2.
+        rewrite <- Hx1. apply in_map. auto.
+    - destruct (f a); simpl; [rewrite E|]; apply IH; auto.
+  Qed.
+
+  Lemma level_subs_shape lv subs : level_subs lv = Some subs ->
+    (exists n i m0 ms, lv = LComp (CCls n i (m0 :: ms))) \/ (exists kids, lv = LComp (CGrp kids)).
+  Proof.
+    destruct lv as [[n s|n i ms|kids|]|s]; simpl; try discriminate.
+    - destruct ms; [discriminate|]. intros _. left. eauto 6.
+    - intros _. right. eauto.
+  Qed.
+
+  Lemma inv_frame top lv st asg sub :
+    inv top lv st asg -> {| fr_ns := ls_ns st; fr_sub := sub |} = mkf top lv asg sub.
+  Proof. intros [H _]. unfold mkf. rewrite H. reflexivity. Qed.
+
+  Lemma check_required_level top lv st asg :
+    lv_wf lv -> inv top lv st asg ->
+    check_required (level_args as_pos lv) (ls_ns st) = sp_complete conv (level_sig lv) asg.
+  Proof.
+    intros HW [H1 H2]. rewrite H1. apply check_required_spec; auto.
+    - apply lv_wf_nodup; auto.
+    - apply lv_wf_noconfig; auto.
+  Qed.
+
+  Lemma call_level lv asg :
+    lv_wf lv -> asg_valid (level_args as_pos lv) asg -> sp_complete conv (level_sig lv) asg = true ->
+    exists b, sp_finish conv (level_sig lv) asg = Some b /\
+              py_call (level_sig lv) (ns_args (args_of_sig as_pos (level_sig lv)) asg) = Ok b.
+  Proof.
+    intros HW HV HC. apply call_sim; auto.
+    - apply lv_wf_nodup; auto.
+    - apply lv_wf_guard2; auto.
+  Qed.
+
+  Lemma sp_finish_none s asg : sp_complete conv s asg = false -> sp_finish conv s asg = None.
+  Proof. intro H. unfold sp_finish. rewrite H. reflexivity. Qed.
+
+  Lemma parse_sim toks : forall top lv cn mn st asg acc,
+    lv_wf lv -> inv top lv st asg ->
+    match parse conv as_pos top lv st toks acc with
+    | Ok fs => exists fs' log ret,
+                 fs = rev acc ++ fs' /\
+                 sp_walk conv as_pos top (slv_of lv cn mn) asg (ls_npos st) (ls_pend st) toks = Some (log, ret) /\
+                 chain top lv cn mn fs' log ret
+    | Err EParse => sp_walk conv as_pos top (slv_of lv cn mn) asg (ls_npos st) (ls_pend st) toks = None
+    | Err EUnmodelled => True
+    | Err _ => False
+    end.
+  Proof.
+    induction toks as [|t toks IH]; intros top lv cn mn st asg acc HW HI.
+    - (* end of the line *)
+      cbn [parse]. destruct (level_subs lv) as [subs|] eqn:ES.
+      + destruct (level_subs_shape _ _ ES) as [[n [i [m0 [ms E]]]]|[kids E]]; subst lv;
+          (destruct (ls_pend st); [reflexivity|exact I]).
+      + rewrite (check_required_level top lv st asg HW HI).
+        destruct (sp_complete conv (level_sig lv) asg) eqn:EC.
+        * destruct HI as [HI1 HI2]. destruct (call_level lv asg HW HI2 EC) as [b [Hb1 Hb2]].
+          pose proof (inv_frame top lv st asg None (conj HI1 HI2)) as HF.
+          destruct lv as [[n s|n i ms|kids|]|s]; simpl in ES; try discriminate; try (simpl in HW; tauto).
+          -- exists [mkf top (LComp (CFn n s)) asg None], [([n], b)], (RetCall 0).
+             split; [simpl; rewrite HF; reflexivity|]. split.
+             ++ simpl in *. rewrite Hb1. reflexivity.
+             ++ constructor. exact Hb2.
+          -- destruct ms; [|discriminate].
+             exists [mkf top (LComp (CCls n i [])) asg None], [([n; s__init__], b)], RetInstance.
+             split; [simpl; rewrite HF; reflexivity|]. split.
+             ++ simpl in *. rewrite Hb1. reflexivity.
+             ++ constructor. exact Hb2.
+          -- exists [mkf top (LMeth s) asg None], [([cn; mn], b)], (RetCall 0).
+             split; [simpl; rewrite HF; reflexivity|]. split.
+             ++ simpl in *. rewrite Hb1. reflexivity.
+             ++ constructor. exact Hb2.
+        * apply sp_finish_none in EC.
+          destruct lv as [[n s|n i ms|kids|]|s]; simpl in ES; try discriminate; try (simpl in HW; tauto).
+          -- simpl in *. rewrite EC. reflexivity.
+          -- destruct ms; [|discriminate]. simpl in *. rewrite EC. reflexivity.
+          -- simpl in *. rewrite EC. reflexivity.
+    - destruct t as [n r|r|d].
+      + (* --n=r *)
+        cbn [parse sp_walk]. rewrite find_arg_filter by (apply dests_of_sig; apply lv_wf_nodup; auto).
+        rewrite (find_arg_level lv n HW). rewrite sl_sig_of. unfold sp_assignable.
+        destruct (sp_find n (level_sig lv)) as [p|] eqn:EF; [|reflexivity].
+        destruct (sp_offered p) eqn:EO; [|reflexivity].
+        cbn [a_pos a_ty mk_arg andb]. unfold sp_positional.
+        destruct (sp_required p && as_pos); cbn [negb andb]; [reflexivity|].
+        destruct (conv (sp_ty p) r) as [v|] eqn:EC; [|reflexivity].
+        apply (IH top lv cn mn (with_ns st (ns_set n v (ls_ns st))) (asg ++ [(n, r)]) acc HW).
+        eapply inv_set; eauto.
+      + (* a bare word *)
+        cbn [parse sp_walk]. rewrite filter_pos_spec, nth_error_map, sl_sig_of.
+        change (fun p : param => sp_offered p && sp_positional as_pos p)
+          with (fun p : param => sp_offered p && (sp_required p && as_pos)).
+        destruct (nth_error (filter (fun p : param => sp_offered p && (sp_required p && as_pos)) (level_sig lv)) (ls_npos st))
+          as [p|] eqn:EN; cbn [option_map].
+        * cbn [a_ty a_dest mk_arg].
+          destruct (conv (sp_ty p) r) as [v|] eqn:EC; [|reflexivity].
+          apply nth_error_In in EN. apply filter_In in EN. destruct EN as [EN1 EN2].
+          apply andb_true_iff in EN2. destruct EN2 as [EO _].
+          apply (IH top lv cn mn (next_pos (with_ns st (ns_set (p_name p) v (ls_ns st)))) (asg ++ [(p_name p, r)]) acc HW).
+          destruct (inv_set top lv st asg (p_name p) r p v HW HI) as [X1 X2]; auto.
+          { apply sp_find_In; auto. apply lv_wf_nodup; auto. }
+          split; auto.
+        * destruct r as [z|m|b|?|l];
+            try (destruct (level_subs lv); reflexivity).
+          destruct (level_subs lv) as [subs|] eqn:ES.
+          2:{ rewrite (sl_sub_none lv cn mn m HW); [reflexivity|rewrite ES; exact I]. }
+          destruct (assoc m subs) as [lv'|] eqn:EA.
+          2:{ rewrite (sl_sub_none lv cn mn m HW); [reflexivity|rewrite ES; exact EA]. }
+          destruct (lv_wf_sub lv cn mn subs m lv' HW ES EA) as [HW' [cn' HSub]]. rewrite HSub.
+          destruct (other_pending m st); [exact I|].
+          rewrite (check_required_level top lv st asg HW HI).
+          change (pending_for m st) with (secs_for m (ls_pend st)).
+          pose proof (init_state_sim lv' cn' m false (secs_for m (ls_pend st)) HW') as HIS.
+          destruct (sp_complete conv (level_sig lv) asg) eqn:EC.
+          -- destruct (init_state conv as_pos false lv' (secs_for m (ls_pend st))) as [st'|e].
+             2:{ destruct e; auto. rewrite HIS. reflexivity. }
+             destruct HIS as [asg' [HS1 [HS2 HS3]]]. rewrite HS1.
+             pose proof (IH false lv' cn' m st' asg' ({| fr_ns := ls_ns st; fr_sub := Some m |} :: acc) HW' HS2) as HP.
+             rewrite HS3 in HP.
+             destruct HI as [HI1 HI2]. destruct (call_level lv asg HW HI2 EC) as [b [Hb1 Hb2]].
+             pose proof (inv_frame top lv st asg (Some m) (conj HI1 HI2)) as HF.
+             destruct (level_subs_shape _ _ ES) as [[n [i [m0 [ms E]]]]|[kids E]]; subst lv.
+             ++ (* class: the constructor, then the method *)
+                simpl in ES. inversion ES; subst subs. clear ES.
+                change ((fst m0, LMeth (snd m0)) :: map (fun ms : str * sig => (fst ms, LMeth (snd ms))) ms)
+                  with (map (fun ms : str * sig => (fst ms, LMeth (snd ms))) (m0 :: ms)) in EA.
+                rewrite (assoc_map_snd LMeth) in EA.
+                destruct (assoc m (m0 :: ms)) as [s|] eqn:EM; [|discriminate]. simpl in EA. inversion EA; subst lv'. clear EA.
+                cbn [slv_of sl_sub] in HSub. rewrite EM in HSub. cbn [slv_of] in HSub. inversion HSub; subst cn'. clear HSub.
+                cbn [slv_of level_sig] in *. rewrite Hb1.
+                destruct (parse conv as_pos false (LMeth s) st' toks _) as [fs|e].
+                ** destruct HP as [fs' [log [ret [HP1 [HP2 HP3]]]]]. rewrite HP2.
+                   exists (mkf top (LComp (CCls n i (m0 :: ms))) asg (Some m) :: fs'), (([n; s__init__], b) :: log), (shift ret).
+                   split; [rewrite HP1; simpl; rewrite <- app_assoc; rewrite HF; reflexivity|].
+                   split; [reflexivity|]. econstructor; eauto.
+                ** destruct e; auto. rewrite HP. reflexivity.
+             ++ (* group: nothing to call at this level *)
+                simpl in ES. inversion ES; subst subs. clear ES.
+                destruct (assoc_kid_levels _ _ _ EA) as [Hm [c [Hc HA']]]. subst lv'.
+                cbn [slv_of] in *.
+                destruct (parse conv as_pos false (LComp c) st' toks _) as [fs|e].
+                ** destruct HP as [fs' [log [ret [HP1 [HP2 HP3]]]]]. rewrite HP2.
+                   exists ({| fr_ns := [(s_config, VNone)]; fr_sub := Some m |} :: fs'), log, ret.
+                   split.
+                   { rewrite HP1. simpl. rewrite <- app_assoc. rewrite HI1. reflexivity. }
+                   split; [reflexivity|]. econstructor; eauto.
+                ** destruct e; auto.
+          -- (* a required constructor parameter is missing *)
+             destruct (level_subs_shape _ _ ES) as [[n [i [m0 [ms E]]]]|[kids E]]; subst lv.
+             ++ cbn [slv_of level_sig] in *. rewrite (sp_finish_none _ _ EC).
+                destruct (sp_docs conv as_pos (slv_of lv' cn' m) (secs_for m (ls_pend st)) [] []) as [[? ?]|]; reflexivity.
+             ++ simpl in EC. discriminate.
+      + (* --config=d *)
+        cbn [parse sp_walk]. rewrite <- (has_config_eq top lv cn mn HW).
+        destruct (level_has_config as_pos top lv) eqn:EH.
+        * pose proof (apply_doc_sim lv cn mn top d HW st asg HI) as HD.
+          destruct (apply_doc conv (level_args as_pos lv) (sub_names lv) d st) as [st'|e].
+          -- destruct HD as [asg' [HD1 [HD2 HD3]]]. rewrite HD1.
+             pose proof (IH top lv cn mn st' asg' acc HW HD2) as HP. rewrite HD3 in HP. exact HP.
+          -- destruct e; auto. rewrite HD. reflexivity.
+        * destruct lv as [[n s|n i ms|kids|]|s]; try reflexivity.
+          destruct (has_param s_config s); [exact I|reflexivity].
+  Qed.
 End Sim.
